@@ -388,3 +388,86 @@ def replife_pipeline(tier):
         work.cleanup()
     cache_put(key, res)
     return res
+
+
+# ------------------------------------------------------------------ publisher / subscriber handles over time (C12, C01)
+PSL_TIERS = {"quick": {"ex": 100, "sim": 50, "simn": 250}, "thorough": {"ex": 3000, "sim": 1500, "simn": 2000}}
+
+
+def publife_pipeline(tier):
+    """PubSubLife.tla model-checked; PubSubLifeGen schedules (publishers incl. duplicate(), subscribers, connection
+    losses on either side, finish) replayed with the real client library and server; Trace_PubSubLife takes every
+    step and every delivery through the specification's actions."""
+    key = "publife-%s-%s-%d" % (tier, tree_key(), seed())
+    c = cache_get(key)
+    if c is not None:
+        log("[publife] reusing pipeline result computed %.0fs ago for the same tree/seed" % (time.time() - c["at"]))
+        c["cached"] = True
+        return c
+    build_harness()
+    T = PSL_TIERS[tier]
+    work = Work("publife-%s" % tier)
+    t0 = time.time()
+    res = {"at": time.time(), "cached": False}
+    try:
+        from concurrent.futures import ThreadPoolExecutor
+        with ThreadPoolExecutor(max_workers=3) as ex_:
+            fm = ex_.submit(tlc, "PubSubLife", "MC_PubSubLife.cfg", work, 6, None, None, 1800)
+            fg = ex_.submit(tlc, "PubSubLifeGen", "MC_PubSubLifeGen.cfg", work, 6, None, None, 1800)
+            fs = ex_.submit(tlc, "PubSubLifeGen", "MC_PubSubLifeGen_sim.cfg", work, 1,
+                            ["-seed", str(seed() + 9), "-simulate", "num=%d" % T["simn"], "-depth", "200"], None, 1800)
+            m, g, s = fm.result(), fg.result(), fs.result()
+        res["models"] = [{"module": "PubSubLife", "cfg": "MC_PubSubLife.cfg", "states": m.distinct, "transitions": m.generated,
+                          "ok": m.ok, "violated": m.violated or m.errors[:2], "wall_s": round(m.wall, 1)}]
+        res["model_ok"] = m.ok
+        res["model_tail"] = "" if m.ok else m.out[-3000:]
+        rnd = random.Random(seed())
+        ex = g.sched_lines()
+        sim = s.sched_lines()
+        n_ex, n_sim = len(ex), len(sim)
+        # schedules with a connection loss first
+        cuts = [x for x in ex if any(st["op"].startswith("cut") for st in x)]
+        rest = [x for x in ex if not any(st["op"].startswith("cut") for st in x)]
+        rnd.shuffle(cuts)
+        rnd.shuffle(rest)
+        ex = cuts[:T["ex"] * 3 // 4]
+        ex += rest[:T["ex"] - len(ex)]
+        rnd.shuffle(sim)
+        sim = sim[:T["sim"]]
+        sf = work.path("psl-sched.jsonl")
+        scheds = ex + sim
+        with open(sf, "w") as f:
+            for i, st in enumerate(scheds):
+                f.write(json.dumps({"id": "psl-%d" % i, "origins": 2, "steps": st}) + "\n")
+        trace = work.path("trace-publife.ndjson")
+        p = sh([os.path.join(BIN, "e2e"), "publife", "--cases", sf, "--out", trace, "--seed", str(seed()), "--par", "16"], timeout=7200)
+        summ = json.loads(p.stdout.strip().splitlines()[-1])
+        r = tlc("Trace_PubSubLife", "Trace_PubSubLife.cfg", work, workers=1, trace=trace, timeout=3600, xmx="8g")
+        if not r.ok:
+            raise ToolError("trace validation (Trace_PubSubLife) did not complete:\n%s" % r.out[-3000:])
+        lines = [x for x in open(trace).read().split("\n") if x]
+        starts = {}
+        for i, x in enumerate(lines):
+            if x.startswith('{"ev":"case"'):
+                starts[json.loads(x)["run"]] = i
+        viols = []
+        for v in r.viol:
+            v = dict(v)
+            b = starts.get(v["run"], max(0, v["line"] - 40))
+            v["schedule"] = {"id": "psl-%d" % (v["run"] - 1), "origins": 2, "steps": scheds[v["run"] - 1]} if 0 < v["run"] <= len(scheds) else None
+            v["context"] = [json.loads(x) for x in lines[b:v["line"]]][-80:]
+            v["event"] = json.loads(lines[v["line"] - 1]) if v["line"] - 1 < len(lines) else {}
+            viols.append(v)
+        res.update({"schedules": {"exhaustive": [n_ex, len(ex)], "simulated": [n_sim, len(sim)], "legend": "[generated, used]",
+                                  "with_connection_loss": sum(1 for x in scheds if any(st["op"].startswith("cut") for st in x))},
+                    "runs": summ["runs"], "events": summ["events"], "deliveries_checked": sum(1 for x in lines if '"ev":"recv"' in x),
+                    "viol": viols[:60], "n_viol": len(viols), "inconclusive": r.notes[:20], "n_inconclusive": len(r.notes),
+                    "sample": [json.loads(x) for x in lines[:16]], "wall_s": round(time.time() - t0, 1)})
+        log("[publife] PubSubLife %d states ok=%s; %d schedules on the real client/server: %d events, %d deliveries; flagged %d, notes %d" % (
+            m.distinct, m.ok, summ["runs"], summ["events"], res["deliveries_checked"], len(viols), len(r.notes)))
+        for n in r.notes[:4]:
+            log("NOTE publife run=%s line=%s %s" % (n["run"], n["line"], n["what"]))
+    finally:
+        work.cleanup()
+    cache_put(key, res)
+    return res
